@@ -48,7 +48,7 @@ pub const PROPS: &[PropDef] = &[
     PropDef { id: "C13", level: "exploration", run: c13::run, shards: 12, isolate: true },
     PropDef { id: "C14", level: "exploration", run: c14::run, shards: 12, isolate: true },
     PropDef { id: "C15", level: "exploration", run: c15::run, shards: 12, isolate: true },
-    PropDef { id: "C16", level: "fault_enumeration", run: c16::run, shards: 1, isolate: false },
+    PropDef { id: "C16", level: "fault_enumeration", run: c16::run, shards: 12, isolate: false },
     PropDef { id: "C17", level: "exploration", run: c17::run, shards: 12, isolate: false },
     PropDef { id: "C18", level: "exploration", run: c18::run, shards: 12, isolate: false },
     PropDef { id: "C19", level: "exploration", run: c19::run, shards: 8, isolate: false },
